@@ -12,7 +12,10 @@
    (the smallest step the adaptive bisection takes) on sharply peaked
    targets, where the incremental weights are still far from uniform.  The index vector (the random
    stream) is chosen by TLC.  Every case is exported with the expected
-   outcome and replayed on the real code with a scripted generator.      *)
+   outcome and replayed on the real code with a scripted generator.  The
+   outcome is a function of the population's *current* fields and
+   temperature: a quarter of the cases are replayed on an object that held
+   other values and was queried for the weights of the same move before.  *)
 EXTENDS Integers, Sequences, FiniteSets, SequencesExt, FiniteSetsExt, Json, IOUtils, TLC
 
 VARIABLE cur      \* the case under examination (one TLC state per case)
